@@ -812,6 +812,65 @@ def call_key(st):
 
 
 # ----------------------------------------------------------------------------------------
+# ---- order independence on look-alike formulas (model-free) ---------------------------------
+def _replace_sub(f, h, new):
+    if f == h:
+        return new
+    if f[0] in ('ap', 'true', 'false'):
+        return f
+    return (f[0],) + tuple(_replace_sub(g, h, new) for g in f[1:])
+
+
+def order_independence(R):
+    """"interleaving a call with arbitrary other calls returns an equal set", checked WITHOUT the model on formulas the model is
+    not exact for: pairs (f, f') where f' is f with one subformula h replaced by an ATOM whose name is the printed form of h
+    (so f and f' print alike: the library compares formulas by printed form, known finding KF-print-a - per call, which is
+    deterministic).  The same calls are executed in a fresh interpreter in one order and in another fresh interpreter in the
+    reversed order: every call must return the same answer in both (anything keyed by formulas that outlives a call - a
+    module-level closure / result table - makes the later look-alike inherit the earlier one's entry)"""
+    rng = random.Random(R.seed + 707)
+    nb = 0
+    for ep in range(8 if R.thorough else 3):
+        structs = [kd_json(rand_kripke(rng, rng.randint(2, 4))) for _ in range(3)]
+        forms, hist = [], []
+        for _ in range(12):
+            kind = rng.choice(['LTL', 'LTL', 'CTL', 'CTLS'])
+            f = gen_formula(rng, kind)
+            logic = rng.choice([l for l in LOGICS if in_logic(l, f)])
+            subs = [h for h in subformulas(f) if h[0] not in ('ap', 'true', 'false') and h != f and h[0] not in ('A', 'E')]
+            pair = [f]
+            if subs:
+                h = rng.choice(subs)
+                nm = call(lambda: str(to_py(h, lang_module(logic))))
+                if nm[0] == 'ok':
+                    pair.append(_replace_sub(f, h, ('ap', nm[1])))
+            for g in pair:
+                if not in_logic(logic, g):
+                    continue
+                forms.append(g)
+                for si in rng.sample(range(3), 2):
+                    hist.append({'logic': logic, 's': si, 'f': len(forms) - 1, 'mode': 'obj', 'F': None})
+        desc = {'structs': structs, 'formulas': forms, 'alias': [False] * 3, 'objstates': [False] * 3}
+        rng.shuffle(hist)
+        o1, _ = exec_history_fresh(desc, hist)
+        o2, _ = exec_history_fresh(desc, list(reversed(hist)))
+        o2 = list(reversed(o2)) if len(o2) == len(hist) else None
+        if o2 is None or len(o1) != len(hist):
+            R.count('order_independence_episodes_cut_short')
+            continue
+        for j, (st, a, b) in enumerate(zip(hist, o1, o2)):
+            R.evaluations += 1
+            if a['res'] != b['res']:
+                nb += 1
+                if nb <= 3:
+                    R.violation('the answer of a call depends on which calls were made before it in the same process',
+                                {'stream': 'order independence', 'pool': desc, 'history': hist, 'step': j, 'call': step_str(desc, st),
+                                 'answer_in_this_order': a['res'], 'answer_in_reversed_order': b['res']})
+            else:
+                R.count('order_independent_calls')
+    R.cov['order_independence'] = {'differences': nb}
+
+
 def run(R):
     R.rule = ('histories of steps over a fresh random pool per history (4 structures <= 4 states, labels over {p,q}, 25% installed with '
               'equal label sets sharing one set object, 30% with states that are plain objects compared by identity instead of ints (half '
@@ -863,6 +922,7 @@ def run(R):
     R.cov['texts_validated_by_model_parser'] = len(pk)
     expectations(sorted(all_cmds))
     R.cov['model_commands_distinct'] = len(all_cmds)
+    order_independence(R)
     shrunk = 0
     for ri, (desc, hist, obs, cmds) in enumerate(runs):
         exps = expectations(cmds)
@@ -982,6 +1042,18 @@ def report(R, desc, hist, obs, exps, j, do_shrink, earlier):
 def replay(R, data):
     d = data['data']
     desc, hist = d['pool'], d['history']
+    if d.get('stream') == 'order independence':
+        o1, _ = exec_history_fresh(desc, hist)
+        o2, _ = exec_history_fresh(desc, list(reversed(hist)))
+        o2 = list(reversed(o2))
+        bad = False
+        for st, a, b in zip(hist, o1, o2):
+            diff = a['res'] != b['res']
+            bad = bad or diff
+            print('%-70s in this order %s, in reversed order %s %s' % (step_str(desc, st), a['res'], b['res'], '<-- VIOLATION' if diff else ''))
+        if bad:
+            R.violation('replayed: the answer of a call depends on the calls made before it', d)
+        return
     for e in d.get('prelude', []):
         _, o, _ = exec_history(e['pool'], e['hist'])
         for st, x in zip(e['hist'], o):
